@@ -374,7 +374,8 @@ Proof.
   - destruct Ha as [Ha1 Ha2]. inversion Hf as [|? ? Hf1 Hf2]; subst.
     destruct (Nat.ltb (r - fz_rnd t fb) 3); [apply IH; assumption|].
     destruct (fz_par t fb) as [p|] eqn:Ep; [|now apply fz_extends_nop].
-    destruct (fz_lookup (fz_known st) (fz_rnd t fb)) eqn:Ek; [|now apply fz_extends_nop].
+    destruct (fz_lookup (fz_known st) (fz_rnd t fb)) as [ids|] eqn:Ek; [|now apply fz_extends_nop].
+    destruct (negb (existsb (Nat.eqb fb) ids)); [now apply fz_extends_nop|].
     destruct (fz_worker_accepts t st fb) eqn:Ew.
     + (* accepted: the previous block is the current LFB *)
       unfold fz_worker_accepts in Ew. rewrite Ep in Ew.
